@@ -1,6 +1,7 @@
 """Catalogues of micro-Specs: element kind x kind/mode parameter x boundary
 values.  Each entry is (cell name, spec).  The soundness monitors (C02-C04,
 C09) and the completeness monitor (C05) walk the same catalogue."""
+import copy
 import itertools
 
 
@@ -201,7 +202,7 @@ def c02_cells(tier="quick"):
                 {"task": "t0", "resource": "w0", "dynamic": True}, {"task": "t1", "resource": "w0"}])))
     # work amount
     for wa in (1, 3, 4, 7):
-        for p0, p1 in ((1, None), (2, None), (0, None), (1, 2), (0, 3), (3, 1)):
+        for p0, p1 in ((1, None), (2, None), (0, None), (1, 2), (0, 3), (3, 1), (2, 2), (3, 3)):
             ws = [{"name": "w0", "productivity": p0}] + ([{"name": "w1", "productivity": p1}] if p1 is not None else [])
             reqs = [{"task": "t0", "resource": w["name"]} for w in ws]
             cells.append((f"work.{wa}.p{p0}_{p1}", base(5, [vr("t0", 0, None, work_amount=wa)], workers=ws,
@@ -213,6 +214,15 @@ def c02_cells(tier="quick"):
             {"name": "w0", "productivity": 1}, {"name": "w1", "productivity": 3}], selections=[
             {"id": "s0", "workers": ["w0", "w1"], "n": 1, "kind": "min"}], requirements=[
             {"task": "t0", "resource": "s0"}])))
+        # workers of EQUAL productivity >= 2 reached through a selection / a dynamic requirement / a cumulative worker
+        cells.append((f"work_sel_eq.{wa}", base(4, [vr("t0", 1, 4, work_amount=wa), fx("t1", 1)], workers=[
+            {"name": "w0", "productivity": 3}, {"name": "w1", "productivity": 3}], selections=[
+            {"id": "s0", "workers": ["w0", "w1"], "n": 1, "kind": "min"}], requirements=[
+            {"task": "t0", "resource": "s0"}, {"task": "t1", "resource": "w1"}])))
+        cells.append((f"work_dyn_eq.{wa}", base(4, [vr("t0", 1, 4, work_amount=wa), fx("t1", 1)], workers=[
+            {"name": "w0", "productivity": 2}, {"name": "w1", "productivity": 2}], requirements=[
+            {"task": "t0", "resource": "w0"}, {"task": "t0", "resource": "w1", "dynamic": True},
+            {"task": "t1", "resource": "w1"}])))
         cells.append((f"work_opt.{wa}", base(4, [vr("t0", 1, 4, work_amount=wa, optional=True)], workers=[
             {"name": "w0", "productivity": 1}], requirements=[{"task": "t0", "resource": "w0"}])))
     return cells
@@ -398,4 +408,26 @@ def c09_cells(tier="quick"):
         {"id": "u0", "kind": "TaskUnloadBuffer", "task": "t0", "buffer": "b1", "quantity": 1},
         {"id": "l0", "kind": "TaskLoadBuffer", "task": "t0", "buffer": "b2", "quantity": 1},
         {"id": "u1", "kind": "TaskUnloadBuffer", "task": "t1", "buffer": "b2", "quantity": 1}])))
+    # several buffers of the same kind in one problem, accessed at coinciding instants with different quantities
+    for c1, c2 in ((False, False), (True, True), (False, True)):
+        tag = f"{'c' if c1 else 'n'}{'c' if c2 else 'n'}"
+        two = [{"name": "b1", "concurrent": c1, "initial": 5, "lower": 0}, {"name": "b2", "concurrent": c2, "initial": 1,
+                                                                            "upper": 6}]
+        # one task unloading both at its start
+        cells.append((f"two.{tag}.same_task_UU", base(4, [fx("t0", 2), fx("t1", 1)], buffers=copy.deepcopy(two), constraints=[
+            {"id": "u0", "kind": "TaskUnloadBuffer", "task": "t0", "buffer": "b1", "quantity": 3},
+            {"id": "u1", "kind": "TaskUnloadBuffer", "task": "t0", "buffer": "b2", "quantity": 1},
+            {"id": "l1", "kind": "TaskLoadBuffer", "task": "t1", "buffer": "b2", "quantity": 2}])))
+        # a pipeline: every task unloads b1 at its start and loads b2 at its end (back-to-back tasks coincide)
+        cells.append((f"two.{tag}.pipeline", base(5, [fx("t0", 2), fx("t1", 2)], buffers=copy.deepcopy(two), constraints=[
+            {"id": "u0", "kind": "TaskUnloadBuffer", "task": "t0", "buffer": "b1", "quantity": 1},
+            {"id": "l0", "kind": "TaskLoadBuffer", "task": "t0", "buffer": "b2", "quantity": 1},
+            {"id": "u1", "kind": "TaskUnloadBuffer", "task": "t1", "buffer": "b1", "quantity": 2},
+            {"id": "l1", "kind": "TaskLoadBuffer", "task": "t1", "buffer": "b2", "quantity": 2}])))
+        # a zero-duration task moving a quantity from one buffer to the other while another task accesses both
+        cells.append((f"two.{tag}.zero_transfer", base(4, [zr("t0"), fx("t1", 1)], buffers=copy.deepcopy(two), constraints=[
+            {"id": "u0", "kind": "TaskUnloadBuffer", "task": "t0", "buffer": "b1", "quantity": 2},
+            {"id": "l0", "kind": "TaskLoadBuffer", "task": "t0", "buffer": "b2", "quantity": 3},
+            {"id": "u1", "kind": "TaskUnloadBuffer", "task": "t1", "buffer": "b2", "quantity": 1},
+            {"id": "l1", "kind": "TaskLoadBuffer", "task": "t1", "buffer": "b1", "quantity": 1}])))
     return cells
